@@ -9,7 +9,7 @@ BASELINE_OFF = ("cmake -G Ninja -B /repo/_build -S /repo >/dev/null && cmake --b
 
 # id -> dict(level, text, note, technique)
 # properties whose check is built, validated (3 seeds silent, mutants caught) and claimed
-READY = ["C01", "C02", "C03", "C04", "C05", "C07", "C08", "C09", "C10", "C11", "C12", "C15", "C16", "C17"]
+READY = ["C01", "C02", "C03", "C04", "C05", "C07", "C08", "C09", "C10", "C11", "C12", "C15", "C16", "C17", "C19", "C20"]
 
 CHECKS = {
     "C01": dict(
@@ -158,6 +158,28 @@ CHECKS = {
         note="PUT/PATCH/extension methods have no public entry point and are reached through performRequest via explicit template instantiation. The 'waited beyond timeout' rule adds measured scheduling noise "
              "and must reproduce three times in isolation. HTTPS exchanges are covered by C07, not here.",
         technique="fault enumeration with a scripted server as observer: per-connection byte logs + syscall-order interposers, rules over logical facts"),
+    "C19": dict(
+        level="exploration",
+        text="A Python DNS encoder with its own name compressor (random choice of compressed suffixes, pointers into RDATA names, every supported record type, 255-octet names) generates "
+             "well-formed responses whose record list is the ground truth; nine mutators produce truncations at every offset, inflated counts, pointer rewrites to self/loop/forward/out-of-range, "
+             "oversize labels and names, random strings and pointer-chain messages. Each input is decoded by the real DnsMessage code in a forked ASan child with an exact-size heap buffer: decoded "
+             "records must equal the generator's, queries built by the library must decode back (by an independent decoder and by iora), malformed input must end in a decoded message or "
+             "DnsParseException (never a crash, never an accepted loop / out-of-range pointer), within a CPU-time bound linear in the input (re-measured alone). DnsCache histories (put / negative put / "
+             "get / remove / clear) run against a reference model with steady_clock frozen and stepped to 1 ns..1 s before / exactly at / after each expiry. Thorough adds many more rounds and a libFuzzer target.",
+        note="EDNS/DNSSEC record types decode as generic records only (outside the supported subset); well-formed forward pointers and labels containing '.' are excluded from the generator. "
+             "One open known finding (A records 192.0-63.x.x rejected as 'malicious pointer', pinned by an existing test).",
+        technique="runtime monitoring: generator-as-oracle differential + mutation robustness in forked ASan children + CPU-time monitor + reference cache model under a frozen clock, libFuzzer"),
+    "C20": dict(
+        level="exploration",
+        text="Python builds a per-case directory tree (nested directories, 22-23 symlinks per root: inside/outside, file/dir, relative/absolute, chains, dangling, a loop, a .gz sibling pointing at "
+             "the secret; sibling-prefix directories such as static-evil; a secret file outside every root; every inside file's content unique and encoding its real path) and a traversal-aware name "
+             "generator/mutator (dot/dot-dot variants, absolute paths, repeated/trailing separators, backslashes, percent-encoding, NUL, 255/4096-byte components, symlink names). The real web::Assets "
+             "serves the names through getStatic/getTemplate in filesystem (cached and per-request) and embedded+external-directory modes; the oracle (os.lstat / os.path.realpath) requires returned bytes "
+             "to identify a regular file whose realpath is under the root, the secret token never. TOCTOU: interposers on open/read/close and the stat family (stat, lstat, statx, readlink, realpath, "
+             "access) count the syscalls of one lookup and the leaf is swapped for a symlink to the secret immediately before syscall k for every k (enumerated, exhaustive per leaf), plus a background "
+             "swapper thread racing 360k lookups.",
+        note="Swaps of intermediate path components and windows inside realpath() itself are not enumerable by interposition (the property names the final component). POSIX only.",
+        technique="runtime monitoring: content-identifies-file oracle via realpath + syscall-indexed symlink swap enumeration at the libc boundary + racing swapper, ASan"),
 }
 
 NOT_YET = {}
